@@ -12,3 +12,6 @@ RULES = {"C16.a", "C16.b", "C16.c", "C16.d", "C16.e", "C16.f"}
 def check(ctx):
     serde_rules.analyze(ctx, RULES)
     sharing.analyze(ctx, {"C16.e"})
+    # the property is observed on scanners obtained through build(): the cache must hand back the configuration's own compilation
+    from .common import cache_foundation
+    cache_foundation(ctx)
